@@ -941,7 +941,7 @@ LeakOf(e) ==
          [ids |-> ToSet(e.led.new) \ (AllIds(e.st) \cup ToSet(e.led.drop)), allocs |-> 0]
     ELSE [ids |-> {}, allocs |-> 0]
 
-Ctx0 == [postFault |-> FALSE, baseline |-> FALSE, cloned |-> {}]
+Ctx0 == [postFault |-> FALSE, baseline |-> FALSE, cloned |-> {}, leakUnknown |-> FALSE]
 Init == /\ l = 2 /\ snap = <<>> /\ leakIds = {} /\ leakAllocs = 0 /\ ctx = Ctx0
 
 Step ==
@@ -950,14 +950,18 @@ Step ==
        CASE e.op = "Reset" ->
                 \* the object ledger is global to the process; the allocation counter is re-based
                 /\ snap' = <<>> /\ leakIds' = leakIds /\ leakAllocs' = 0
-                /\ ctx' = [Ctx0 EXCEPT !.baseline = HasF(e, "baseline")]
+                /\ ctx' = [Ctx0 EXCEPT !.baseline = HasF(e, "baseline"), !.leakUnknown = ctx.leakUnknown]
          [] e.op = "Skip" -> UNCHANGED <<snap, leakIds, leakAllocs, ctx>>
          [] e.op = "Snap" ->
                 \* state reached by a silently replayed prefix (crash-point enumeration)
                 /\ GlobalMon(e, leakAllocs) = TRUE
                 /\ snap' = e.st /\ leakIds' = ToSet(e.leaked) /\ UNCHANGED <<leakAllocs, ctx>>
          [] e.op = "EndRun" ->
-                /\ Chk("C06", "nothing_leaks", e, ToSet(e.live_ids) = leakIds /\ (HasF(e, "par") \/ e.live_allocs = leakAllocs)) = TRUE
+                \* (if an iterator was forgotten while the contents were too large to be logged, only
+                \* the known part of the leak can be compared)
+                /\ Chk("C06", "nothing_leaks", e,
+                       /\ (IF ctx.leakUnknown THEN leakIds \subseteq ToSet(e.live_ids) ELSE ToSet(e.live_ids) = leakIds)
+                       /\ (HasF(e, "par") \/ e.live_allocs = leakAllocs)) = TRUE
                 /\ UNCHANGED <<snap, leakIds, leakAllocs, ctx>>
          [] OTHER ->
                 LET lk == LeakOf(e) IN
@@ -968,6 +972,8 @@ Step ==
                 /\ leakIds' = leakIds \cup lk.ids
                 /\ leakAllocs' = leakAllocs + lk.allocs
                 /\ ctx' = [ctx EXCEPT !.postFault = @ \/ (Faulted(e) /\ e.fault.fired = 1),
+                                      !.leakUnknown = @ \/ (e.op = "Drain" /\ e.end = "forget" /\ Alive(snap, e.s)
+                                                             /\ ~IsFull(Pre(e.s)) /\ Len(e.yield) < Pre(e.s).len),
                                       !.cloned = IF e.op \in {"Clone", "CloneFrom"} THEN @ \cup {e.d} ELSE @]
     /\ l' = l + 1
 
